@@ -224,6 +224,13 @@ def check(run):
     # threads: fixed workload sequentially and on 8 threads
     work = [rand_op(run.rng, pairs) for _ in range(48 if q else 400)]
     work = [w for w in work if w[0] != "cli"]
+    # blends that land exactly on x.5 (alpha 1/2, channel and background of opposite parity; alpha 3/4 with 4 | c + 3 - k):
+    # where a rounding rule kept in per-thread state of the standard library (decimal context, locale) would show
+    for _ in range(16 if q else 120):
+        c = tuple(2 * run.rng.randrange(20, 120) for _ in range(3))
+        txt = run.rng.choice(["rgba(%d, %d, %d, 0.5)" % c, (c[0], c[1], c[2], 0.5), "rgba(%d, %d, %d, 0.75)" % tuple(x | 1 for x in c)])
+        work.append(("mr", txt, run.rng.choice(["#ffffff", "white", (255, 255, 255)]), bool(run.rng.randrange(2)), run.rng.choice([0, 1, 2]), bool(run.rng.randrange(2))))
+        work.append(("pair", txt, "#ffffff", False))
     seq = [do_op(w) for w in work]
     res = [None] * len(work)
 
